@@ -54,6 +54,10 @@ EXPLANATION += ' Added: (R13) the statements that size the kernel tables (a back
 TECHNIQUE += '; whole-function abstract interpretation of compute_overlap on model bases (decision table of the guards, metamorphic relations)'
 EXPLANATION += ' R2, R4 and R5 no longer read the statements of compute_overlap: the function is interpreted as a whole (iodalint.accessors; scipy binom / factorial2 as exact stubs, the Cartesian-to-pure tables those decided by R1) on small model bases without symmetry. R2 is the decision table over (normalisation of either basis, second basis given, second geometry given); R5 is: one basis gives a symmetric matrix, equal to the two-basis call with the same basis, and exchanging two different bases transposes the matrix; R4 is: a basis with an SP shell and a (pure d, p) shell gives the matrix of its segmented form, as only, first or second basis. Added (R14): unit diagonal for normalised functions, the closed-form s-s element, no empty off-diagonal block for a geometry without symmetry, translation invariance, and a change of conventions permutes / sign-flips rows and columns as the labels say. These relations hold for any correct implementation, however it is organised (dispatch in a helper, other loop shapes); they decide the model bases only -- the quantifier over all bases is reached through R1, R6-R13, which decide the pieces for all arguments.'
 # --- end metadata round-2 twins
+# --- metadata added after the round-3 refactoring twins
+TECHNIQUE += '; interprocedural scope for the screening / weight rules'
+EXPLANATION += ' R1, R6, R9 and R10 work on compute_overlap and the plain helper functions of its module it reaches (a primitive-pair or shell-pair loop moved into a helper is still the assembly); the translation weights are propagated through those calls.'
+# --- end metadata round-3 twins
 
 
 def df(n):
